@@ -51,16 +51,16 @@ SC = [0.1, 0.5, 1.0, 2.0, 3.0]
 
 def cases(tier, seed):
     out = []
-    reps = 1 if tier == "quick" else 12
+    reps = 1 if tier == "quick" else 80
     for rep in range(reps):
         for n in range(1, 5):
             for b in itertools.product("XYZ", repeat=n):
                 for kind in ("complex", "mixed"):
                     out.append({"t": "single", "kind": kind, "n": n, "basis": "".join(b), "rep": rep, "seed": seed})
-    nm = 40 if tier == "quick" else 1500
+    nm = 40 if tier == "quick" else 10000
     for i in range(nm):
         out.append({"t": "mixedbatch", "kind": ["complex", "mixed"][i % 2], "n": 1 + i % 4, "rep": i, "seed": seed})
-    npos = 24 if tier == "quick" else 600
+    npos = 24 if tier == "quick" else 4000
     for i in range(npos):
         out.append({"t": "positive", "kind": "positive", "n": 1 + i % 4, "rep": i, "seed": seed})
     return out
